@@ -23,6 +23,7 @@ EXPLANATION = (
     ' (D4/D4b) The conversion vectors are additionally decided on an extracted segment model for every small channel / sync count (zero sync channels included): one factor per saved channel, analog channels with their own generation / stream gain, sync channels last with factor 1.'
     ' (D1 as built) only gathers in the backward slice of the returned voltage array are paired (the sync decoding may gather its own columns); an index array may be swapped for the slice between its end points only under a guard establishing an increasing consecutive run; (D3) star-args dispatch read(*item) is accepted after the length test.'
     ' (D1 full-width branch) when read() has a branch for csel == slice(None), the data columns there are put in order with raw_channel_order and the gain vector is the conversion vector gathered with that same order (a vector filled by scattering, out[order] = s2v, is the inverse permutation and is reported).'
+    " (D1 helper form) when the selector is produced by a helper method, every value it can return is the caller's selector (only without on-disk order / identity order), raw_channel_order[selector], or slice(run[0], run[-1] + step, step) of that regular run whose stop is never negative."
 )
 ASSUMPTIONS = [
     "numpy fancy/slice indexing semantics (model table): x[..., sel] gathers columns in selector order",
